@@ -14,7 +14,7 @@ from vlib import build, crypto_ref as C, runner
 
 PID = "C13"
 ASPECTS = ["engine", "boots_time", "user", "auth_flag", "priv_flag", "flags", "mac", "priv", "salt", "strict", "panic", "count", "outcome",
-           "pdu_tag", "oids", "deaf"]
+           "pdu_tag", "oids", "deaf", "create"]
 
 
 def main():
